@@ -1,17 +1,20 @@
 #ifndef VF_STRTOUL_H
 #define VF_STRTOUL_H
-/* ------------------------------------------------------------------ strtoul (base 10) - exact model, so that code which
+/* ------------------------------------------------------------------ strtoul (bases 10 and 16, C11 7.22.1.4: white space, sign, optional 0x prefix for base 16) - exact model, so that code which
  * switches to the C library for index parsing is still decided rather than left to an unconstrained return value */
 #ifndef VF_NATIVE
+static int vf_xdig(char c) { return (c >= '0' && c <= '9') ? c - '0' : (c >= 'a' && c <= 'f') ? c - 'a' + 10 : (c >= 'A' && c <= 'F') ? c - 'A' + 10 : -1; }
 static unsigned long vf_strtoul(const char *s, char **end, int base)
 {
     size_t i = 0; unsigned long v = 0; int neg = 0, any = 0, sat = 0;
-    (void)base;
+    unsigned long b = base == 16 ? 16UL : 10UL;
+    VF_BOUND(base == 10 || base == 16, "strtoul base other than 10 or 16 is not modelled");
     while (s[i] == ' ' || (s[i] >= '\t' && s[i] <= '\r')) i++;
     if (s[i] == '+' || s[i] == '-') { neg = s[i] == '-'; i++; }
-    while (s[i] >= '0' && s[i] <= '9') {
-        unsigned long d = (unsigned long)(s[i] - '0');
-        if (v > (ULONG_MAX - d) / 10) sat = 1; else v = v * 10 + d;
+    if (base == 16 && s[i] == '0' && (s[i + 1] == 'x' || s[i + 1] == 'X') && vf_xdig(s[i + 2]) >= 0) i += 2;
+    while (vf_xdig(s[i]) >= 0 && (unsigned long)vf_xdig(s[i]) < b) {
+        unsigned long d = (unsigned long)vf_xdig(s[i]);
+        if (v > (ULONG_MAX - d) / b) sat = 1; else v = v * b + d;
         any = 1; i++;
     }
     if (end) *end = (char *)(any ? s + i : s);
